@@ -10,7 +10,7 @@ use std::os::unix::net::{UnixListener, UnixStream};
 use std::process::Child;
 
 #[cfg(unix)]
-use libc::{close, dup2, getpid};
+use libc::{close, dup2, fcntl, F_SETFD};
 use tempfile::TempDir;
 #[cfg(windows)]
 use uds_windows::UnixStream;
@@ -69,12 +69,14 @@ pub fn varlink_exec<S: ?Sized + AsRef<str>>(
 pub fn varlink_exec<S: ?Sized + AsRef<str>>(
     address: &S,
 ) -> Result<(Child, String, Option<TempDir>)> {
-    use std::env;
     use std::os::unix::process::CommandExt;
     use std::process::Command;
     use tempfile::tempdir;
 
-    let executable = String::from("exec ") + address.as_ref();
+    // `$$` is the pid of the shell, which `exec` keeps for the service: LISTEN_PID names the
+    // activated process itself. The other variables are set by the parent; touching the
+    // process environment between fork and exec can block on the environment lock.
+    let executable = String::from("LISTEN_PID=$$ exec ") + address.as_ref();
 
     let dir = tempdir().map_err(map_context!())?;
     let file_path = dir.path().join("varlink-socket");
@@ -86,20 +88,19 @@ pub fn varlink_exec<S: ?Sized + AsRef<str>>(
         Command::new("sh")
             .arg("-c")
             .arg(executable)
-            .pre_exec({
-                let file_path = file_path.clone();
-                move || {
-                    dup2(2, 1);
-                    if fd != 3 {
-                        dup2(fd, 3);
-                        close(fd);
-                    }
-                    env::set_var("VARLINK_ADDRESS", format!("unix:{}", file_path.display()));
-                    env::set_var("LISTEN_FDS", "1");
-                    env::set_var("LISTEN_FDNAMES", "varlink");
-                    env::set_var("LISTEN_PID", format!("{}", getpid()));
-                    Ok(())
+            .env("VARLINK_ADDRESS", format!("unix:{}", file_path.display()))
+            .env("LISTEN_FDS", "1")
+            .env("LISTEN_FDNAMES", "varlink")
+            .pre_exec(move || {
+                dup2(2, 1);
+                if fd != 3 {
+                    dup2(fd, 3);
+                    close(fd);
+                } else {
+                    // the listener is close-on-exec: keep it open for the service
+                    fcntl(3, F_SETFD, 0);
                 }
+                Ok(())
             })
             .spawn()
             .map_err(map_context!())?
